@@ -106,6 +106,8 @@ def monitor(contract, ncases, rng, on_case=None):
             bindings["self"] = self_obj
         for nm, d in contract.defaults.items():
             bindings.setdefault(nm, eval(d))
+        for gname, (gtype, gexpr) in contract.ghost.items():
+            bindings[gname] = rtc.evaluate(contract, gexpr, dict(bindings), case.get("universe"))
         if not rtc.satisfies_pre(contract, bindings, case.get("universe")):
             continue
         n += 1
